@@ -25,10 +25,11 @@ MkUn(op, x) ==
     [] op = "max2"     -> [t |-> "max", a |-> x, n |-> 2]
     [] op = "minmax12" -> [t |-> "minmax", a |-> x, m |-> 1, n |-> 2]
     [] op = "minmax02" -> [t |-> "minmax", a |-> x, m |-> 0, n |-> 2]
+    [] op = "minmax11" -> [t |-> "minmax", a |-> x, m |-> 1, n |-> 1]
     [] OTHER           -> Un(op, x)
 
 Leaves == {S(a), S(<<>>), Id("m"), Id("r1"), Id("ANY"), Id("EOI")}
-Unary  == {"opt", "rep", "rep1", "not", "and", "exact2", "min1", "min0", "max2", "minmax12", "minmax02"}
+Unary  == {"opt", "rep", "rep1", "not", "and", "exact2", "min1", "min0", "max2", "minmax12", "minmax02", "minmax11"}
 Binary == {"seq", "alt"}
 
 RECURSIVE ExprsOfSize(_)
